@@ -434,7 +434,7 @@ func checkBindings(prog *Program, sm *Summary, wlv *ssa.Function, pExpr, v *Sym,
 						}
 					}
 				}
-				if isKeyString(sm.St, part, v, n) {
+				if isKeyString(sm.St, part, v, n) || isCollectedKeyString(sm.St, part, v, n) {
 					okKey = true // keys[i].String(): the key type is exactly string on this path
 				}
 				if !okKey {
@@ -460,7 +460,7 @@ func checkBindings(prog *Program, sm *Summary, wlv *ssa.Function, pExpr, v *Sym,
 						okKey = true
 					}
 				}
-				if val.K == sMkIface && isKeyString(sm.St, val.A, v, n) {
+				if val.K == sMkIface && (isKeyString(sm.St, val.A, v, n) || isCollectedKeyString(sm.St, val.A, v, n)) {
 					okKey = true
 				}
 				if !okKey {
@@ -552,7 +552,7 @@ func checkMapKeyGuard(r *Run, prog *Program, a *Anchors, pfx string) {
 			if ev.Instr != nil && isReflectFunc(ev.Callee, "ValueOf") && v == nil {
 				v = ev.Res
 			}
-			if ev.Instr != nil && isReflectMethod(ev.Callee, "MapKeys") {
+			if ev.Instr != nil && (isReflectMethod(ev.Callee, "MapKeys") || isReflectMethod(ev.Callee, "MapRange")) {
 				mapKeys = true
 			}
 		}
